@@ -89,7 +89,9 @@ def build_real(case):
         if add is not None:
             add = (np.array(add[0], dtype=np.intp).reshape(len(add[0]), len(case['Ls']) + 1),
                    [None if m is None else (m[0] / m[1] if m[1] != 1 else m[0]) for m in add[1]])
-        return la.IrregularLattice(lat, remove=ir.get('remove'), add=add, add_unit_cell=[None] * ir.get('n_add_uc', 0))
+        k = ir.get('n_add_uc', 0)
+        return la.IrregularLattice(lat, remove=ir.get('remove'), add=add, add_unit_cell=[None] * k,
+                                   add_positions=np.zeros((k, lat.unit_cell_positions.shape[1])))
     if 'helical' in var:
         return la.HelicalLattice(lat, var['helical'])
     if 'helical_enlarge' in var:
@@ -429,26 +431,54 @@ def oracle_values(geo, lat, A, u):
 
 
 def oracle_masked(geo, lat, A, inds, include_u):
-    res = lat.mps2lat_values_masked(np.array(A, dtype=np.int64), 0, np.array(inds, dtype=np.int64), include_u)
-    data, mask = np.ma.getdata(res), np.ma.getmaskarray(res)
-    seen = set()
-    for k, i in enumerate(inds):
-        x = [int(v) for v in lat.mps2lat_idx(i)]
-        q, r = divmod(i, geo.N)
-        want = list(geo.order[r])
-        want[0] += q * geo.Ls[0]
-        if x != want:
-            return 'mps2lat.not-periodic-extension-of-order', f'i={i}'
-        pos = tuple(want if include_u else want[:-1])
-        if pos[0] >= res.shape[0] or -pos[0] > res.shape[0]:
-            return 'mps2lat_values_masked.shape-too-small', f'{res.shape} for x0={pos[0]}'
-        pos = (pos[0] % res.shape[0],) + pos[1:]
-        if mask[pos] or int(data[pos]) != A[k]:
-            return 'mps2lat_values_masked.misplaced', f'A[{k}] (mps {i}) not at {pos}'
-        seen.add(pos)
-    if int((~mask).sum()) != len(seen):
-        return 'mps2lat_values_masked.extra-unmasked', f'{int((~mask).sum())} unmasked, {len(seen)} expected'
-    return None
+    """every A[k] sits at the lattice coordinates of site inds[k] (x_0 < 0 counted from the end, as documented),
+    everything else is masked"""
+    if geo.finite and any(i < 0 or i >= geo.N for i in inds):
+        return None  # not a valid input for a finite MPS
+    try:
+        res = lat.mps2lat_values_masked(np.array(A, dtype=np.int64), 0, np.array(inds, dtype=np.int64), include_u)
+    except IndexError as e:
+        sig, det = 'mps2lat_values_masked.raised-IndexError', str(e)[:200]
+        res = None
+    if res is not None:
+        sig = det = None
+        data, mask = np.ma.getdata(res), np.ma.getmaskarray(res)
+        want = {}
+        for k, i in enumerate(inds):
+            q, r = divmod(i, geo.N)
+            x = list(geo.order[r])
+            x[0] += q * geo.Ls[0]
+            pos = tuple(x if include_u else x[:-1])
+            want.setdefault(pos, []).append(A[k])   # same site coordinates (u dropped): any of the values
+        placed = {}
+        for pos, vals in want.items():
+            if pos[0] >= res.shape[0] or -pos[0] > res.shape[0]:
+                sig, det = 'mps2lat_values_masked.shape-too-small', f'{res.shape} for x0={pos[0]}'
+                break
+            p = (pos[0] % res.shape[0],) + pos[1:]
+            if p in placed:
+                sig, det = 'mps2lat_values_masked.misplaced', f'coordinates {pos} and {placed[p]} share entry {p}'
+                break
+            placed[p] = pos
+            if mask[p] or int(data[p]) not in vals:
+                sig, det = 'mps2lat_values_masked.misplaced', f'value of site {pos} not at {p}'
+                break
+        if sig is None and int((~mask).sum()) != len(placed):
+            sig, det = 'mps2lat_values_masked.extra-unmasked', f'{int((~mask).sum())} unmasked, {len(placed)} expected'
+    if sig is None:
+        return None
+    # input class of the known finding: the first dimension allotted from MPS-index arithmetic
+    # (max_i, min_i, N_rings/N_sites) is smaller than what the x_0 of the sites need
+    N, R = geo.N, geo.Ls[0]
+    alloc_pos = R + ((max(inds) - N) * R // N + 1 if max(inds) >= N else 0)
+    alloc_neg = ((-min(inds) - 1) * R // N + 1) if min(inds) < 0 else 0
+    x0s = []
+    for i in inds:
+        q, r = divmod(i, N)
+        x0s.append(geo.order[r][0] + q * R)
+    if max(x0s) + 1 > alloc_pos or -min(x0s) > alloc_neg:
+        sig += '[first-dim-from-mps-index-arithmetic-too-small]'
+    return sig, det
 
 
 def oracle_couplings(geo, lat, u1, u2, dx):
